@@ -80,3 +80,23 @@ PROPS.update({
 TECHNIQUE.update({
     "C17": "guarded reachability (limit_reached dominates fault declaration), dispatch-arm/callee tables, must-pass-through re-arm, sibling cross-check, writer whitelist of the counter field",
 })
+
+PROPS.update({
+    "C06": {
+        "decided": "No-panic clause: every potentially panicking construct (MIR overflow/bounds/division Assert terminators of the dev profile, unwrap/expect, panicking::*, Index/slice/Vec APIs that can panic, time arithmetic) in the call graph of every public decoder, of read_length_value_pair/read_type*, VariableID::try_from and of the transport receive path - including the encoders the CRC branch of PDU::decode re-enters - is discharged by a local argument (interval analysis, constant index into a fixed array, from_u8 argument within the enum's discriminants, try_into dominated by the matching length test, insert at 0) or matched against a reviewed table of justified sites; every loop there is iterator-driven or consumes input on each iteration; every allocation there is sized by a value of at most 16 bits.",
+        "not_decided": "Canonicity of accepted input beyond what C05's layout/tag agreement implies; panics inside external crates (std, byteorder, num-traits), which are listed in the evidence and trusted.",
+    },
+    "C14": {
+        "decided": "Three necessary conditions plus consumption: a checksum loop driven by a short-read primitive (fill_buf/read) carries state besides the accumulator across reads and that state feeds the accumulator update; the Null arm returns the constant 0 with no computation; consume(n) is given exactly the length of the fill_buf slice; no arithmetic in the function can panic (audit as C06-P1).",
+        "not_decided": "The numerical identity itself (endianness, padding value, agreement with the CCSDS definition): a change that keeps the loop's shape but alters a constant is not detected.",
+    },
+    "C15": {
+        "decided": "With the CRC flag present every Ok return of PDU::decode lies behind the true edge of a comparison between (a) crc16_ibm_3740 over the re-encoding of the very PDU being returned, with the re-encoding's own CRC bytes truncated, and (b) from_be_bytes of bytes read from the input reader; the flag tested is the decoded PDU's; the five places that know the CRC width agree.",
+        "not_decided": "Which corruptions the CRC-16 catches (polynomial arithmetic) and that decode/encode layouts agree for every PDU (C05).",
+    },
+})
+TECHNIQUE.update({
+    "C06": "panic-site audit over MIR (Assert terminators + panicking-API table) with interval analysis and a justified-site table; natural-loop consumption check; allocation-size ranges",
+    "C14": "loop-carried-state rule over natural loops of the MIR, constant-arm rule, panic-site audit",
+    "C15": "guarded reachability of the accepting return (world-set dataflow) + backward slices of both comparison operands; constant agreement across five sites",
+})
